@@ -32,6 +32,10 @@ def main():
             props = ["C%02d" % i for i in range(1, 20)]
         r = sh(["git", "-C", REPO, "apply", "--whitespace=nowarn", os.path.join(d, "patch.diff")])
         if r.returncode != 0:
+            # the patch was written against an earlier HEAD (before later fix: commits): allow fuzz
+            sh(["git", "-C", REPO, "checkout", "--", "."])
+            r = sh(["patch", "-p1", "-s", "-F3", "--no-backup-if-mismatch", "-d", REPO, "-i", os.path.join(d, "patch.diff")])
+        if r.returncode != 0:
             print(sid, "patch does not apply:", r.stdout[-300:])
             results[sid] = {"error": "patch does not apply"}
             continue
